@@ -21,4 +21,4 @@ require (
 	golang.org/x/text v0.14.0 // indirect
 )
 
-replace github.com/fullstorydev/grpchan => /tmp/grpchan-orig
+replace github.com/fullstorydev/grpchan => /repo
